@@ -465,7 +465,9 @@ def _in_thread(fn, out, limit=6.0):
     t.start()
     t.join(limit)
     if t.is_alive():
-        out.exception(f"the worker thread did not finish within {limit} s (hung inside the context)")
+        fr = sys._current_frames().get(t.ident)
+        stack = " <- ".join(f"{os.path.basename(f.filename)}:{f.lineno} {f.name}" for f in reversed(traceback.extract_stack(fr)[-4:])) if fr else "?"
+        out.exception(f"the worker thread did not finish within {limit} s (hung inside the context at {stack})")
         return False
     if box:
         out.exception(f"worker thread: {type(box[0]).__name__}: {box[0]}")
@@ -711,7 +713,7 @@ def _sigint_blocked(env, case, out):
 # ----------------------------------------------------------------------------------- isolation
 def run_isolated(case, limit=None):
     """fork, run the scenario in the child, -> result dict (keys fails, notes | crash | hang)"""
-    limit = limit or case.get("limit", 25.0)
+    limit = limit or case.get("limit", 25.0 if case.get("scenario") == "repeat" else 10.0)
     r, w = os.pipe()
     with warnings.catch_warnings():
         warnings.simplefilter("ignore", DeprecationWarning)
@@ -819,7 +821,7 @@ def cases(tier, seed):
     initials = INITIALS_QUICK + (INITIALS_MORE if thorough else [])
     rng = random.Random(seed * 7919 + 12)
     if thorough:
-        initials = initials + [[f"rand{rng.randrange(10 ** 6)}"] for _ in range(12)]
+        initials = initials + [[f"rand{rng.randrange(10 ** 6)}"] for _ in range(30)]
     else:
         initials = initials + [[f"rand{rng.randrange(10 ** 6)}"] for _ in range(2)]
     excs = ["Boom", "KeyboardInterrupt"] + (["SystemExit"] if thorough else [])
@@ -941,8 +943,9 @@ def _batch(cs):
     return out
 
 
-def _inputs(case, component, clause):
+def _inputs(case, component, clause, detail=""):
     d = dict(case)
+    d["hung"] = "did not finish within" in detail
     d["component"] = component
     d["flags"] = dict(case.get("flags", {}))
     body = list(case.get("body", [])[:case.get("prefix", 99)]) + list(case.get("first_body", []))
@@ -998,5 +1001,5 @@ def run(check, tier, seed):
                 check.engine_error(f"{sname}: {crash[-400:]} | case {json.dumps(case)[:300]}")
                 continue
             for clause, component, detail in fails:
-                s.fail(clause, _inputs(case, component, clause), detail, replay={"kind": "suite", "module": "props.C12", "case": case})
+                s.fail(clause, _inputs(case, component, clause, detail), detail, replay={"kind": "suite", "module": "props.C12", "case": case})
         s.done()
